@@ -148,7 +148,10 @@ WireEndO(mm, t, tau) ==
     /\ ctx' = [ctx EXCEPT ![cur[t]] = UpdEnd(mm, @, tau)]
     /\ UNCHANGED <<cur, par>>
 
-(* Exit(t): leaving the innermost with block of t: restore_context(token), then propagation unless top-level.      *)
+(* Exit(t, raised): leaving the innermost with block of t: restore_context(token), then propagation unless         *)
+(* top-level.  raised = TRUE: the block is left by an exception (a failed sub-request: timeout, API error ...; the   *)
+(* wire request has been issued and on_request_end has been called by the client's exception hook).  __exit__ does   *)
+(* not look at exc_type: the propagation is the same, the exception travels on (return False).                      *)
 (* Usage discipline (structured concurrency, as in Composite.run_stream): tasks created inside the block have been  *)
 (* awaited.                                                                                                        *)
 ExitG(t) == /\ ts[t] = "run"
@@ -158,7 +161,7 @@ ExitS(t) ==
     /\ scope' = [scope EXCEPT ![t] = Front(@)]
     /\ open'  = [open EXCEPT ![Last(scope[t])] = FALSE]
     /\ UNCHANGED <<clock, ts, tpar, base, owner, lpar, sub, hs, he, nwire, chunks>>
-ExitO(mm, t) ==
+ExitO(mm, t, raised) ==
     LET n == Last(scope[t])                                    \* the manager's own dict (self.ctx) and token
         p == par[n]
     IN /\ cur' = [cur EXCEPT ![t] = p]                         \* request_context.reset(token)
@@ -198,19 +201,19 @@ JoinO(t, u) ==
 
 -----------------------------------------------------------------------------
 Enter(t)          == EnterG(t) /\ EnterB(t) /\ EnterS(t) /\ EnterO(t)
-                     /\ act' = [name |-> "Enter", t |-> t, u |-> 0, last |-> FALSE]
+                     /\ act' = [name |-> "Enter", t |-> t, u |-> 0, last |-> FALSE, raised |-> FALSE]
 WireStart(t)      == WireStartG(t, clock + 1) /\ WireStartB(t) /\ WireStartS(t, clock + 1)
                      /\ WireStartO(MinMaxPropagation, t, clock + 1)
-                     /\ act' = [name |-> "WireStart", t |-> t, u |-> 0, last |-> FALSE]
+                     /\ act' = [name |-> "WireStart", t |-> t, u |-> 0, last |-> FALSE, raised |-> FALSE]
 WireEnd(t, last)  == WireEndG(t, clock + 1) /\ WireEndB(last) /\ WireEndS(t, last, clock + 1)
                      /\ WireEndO(MinMaxPropagation, t, clock + 1)
-                     /\ act' = [name |-> "WireEnd", t |-> t, u |-> 0, last |-> last]
-Exit(t)           == ExitG(t) /\ ExitS(t) /\ ExitO(MinMaxPropagation, t)
-                     /\ act' = [name |-> "Exit", t |-> t, u |-> 0, last |-> FALSE]
+                     /\ act' = [name |-> "WireEnd", t |-> t, u |-> 0, last |-> last, raised |-> FALSE]
+Exit(t, raised)   == ExitG(t) /\ ExitS(t) /\ ExitO(MinMaxPropagation, t, raised)
+                     /\ act' = [name |-> "Exit", t |-> t, u |-> 0, last |-> FALSE, raised |-> raised]
 Spawn(t, u)       == SpawnG(t, u) /\ SpawnB(t, u) /\ SpawnS(t, u) /\ SpawnO(t, u)
-                     /\ act' = [name |-> "Spawn", t |-> t, u |-> u, last |-> FALSE]
+                     /\ act' = [name |-> "Spawn", t |-> t, u |-> u, last |-> FALSE, raised |-> FALSE]
 Join(t, u)        == JoinG(t, u) /\ JoinS(t, u) /\ JoinO(t, u)
-                     /\ act' = [name |-> "Join", t |-> t, u |-> u, last |-> FALSE]
+                     /\ act' = [name |-> "Join", t |-> t, u |-> u, last |-> FALSE, raised |-> FALSE]
 
 InitWith(R) ==
     /\ clock = 0
@@ -222,12 +225,12 @@ InitWith(R) ==
     /\ ctx = <<>> /\ par = <<>> /\ open = <<>> /\ owner = <<>> /\ lpar = <<>> /\ sub = <<>> /\ hs = <<>> /\ he = <<>>
     /\ nwire = 0
     /\ chunks = 0
-    /\ act = [name |-> "Init", t |-> 0, u |-> 0, last |-> FALSE]
+    /\ act = [name |-> "Init", t |-> 0, u |-> 0, last |-> FALSE, raised |-> FALSE]
 
 Init == InitWith(Roots)
 
-Next == \/ \E t \in Tasks : Enter(t) \/ WireStart(t) \/ Exit(t)
-        \/ \E t \in Tasks, last \in BOOLEAN : WireEnd(t, last)
+Next == \/ \E t \in Tasks : Enter(t) \/ WireStart(t)
+        \/ \E t \in Tasks, flag \in BOOLEAN : WireEnd(t, flag) \/ Exit(t, flag)
         \/ \E t, u \in Tasks : Spawn(t, u) \/ Join(t, u)
 
 Spec == Init /\ [][Next]_vars
@@ -240,8 +243,8 @@ Spec == Init /\ [][Next]_vars
 (*  requests issued on its behalf, including sub-requests of composite operations that run nested or        *)
 (*  concurrently, and each sub-request's own timing covers exactly that sub-request."                       *)
 (* The timing of a request context is final when its with block is left (callers read it there); all wire   *)
-(* requests issued on its behalf have ended by then.  Nothing is claimed for a context without any wire      *)
-(* request.                                                                                                 *)
+(* requests issued on its behalf have ended by then - successfully or not: a request that failed has been    *)
+(* issued, too.  Nothing is claimed for a context without any wire request.                                  *)
 
 Settled(n)  == ~open[n] /\ hs[n] # Absent
 IsLeaf(n)   == ~sub[n]                                         \* no sub-request context inside n
